@@ -101,6 +101,7 @@ fn main() {
                                 if samples.len() < 3 || (n % 100_003 == 0 && samples.len() < 8) {
                                     samples.push(js.chars().take(600).collect());
                                 }
+                                r.cur_case = Some(js);
                                 replay::dispatch(&mut r, &c);
                             }
                             Err(e) => {
